@@ -29,7 +29,7 @@ def fresh():
 
 
 def run_check(prop):
-    env = dict(os.environ, VERIF_REPO=SCRATCH)
+    env = dict(os.environ, VERIF_REPO=SCRATCH, VERIF_OUT_DIR="/tmp/vst_out")
     r = subprocess.run([os.path.join(V, "check"), prop], env=env, stdout=subprocess.PIPE, stderr=subprocess.STDOUT, text=True, cwd=V)
     keys = []
     for line in r.stdout.splitlines():
@@ -67,6 +67,14 @@ def main():
                     if r.returncode != 0:
                         ok_apply = False
                         print(f"!! {v['name']}: {ed[1]} does not reverse-apply")
+                        break
+                    continue
+                if ed[0] == "@patch":
+                    # a seeded defect kept under /verif/seeded (written by an independent sub-agent)
+                    r = subprocess.run(["patch", "-p1", "-s", "-d", SCRATCH, "-i", os.path.join(V, ed[1])], stdout=subprocess.PIPE, stderr=subprocess.STDOUT)
+                    if r.returncode != 0:
+                        ok_apply = False
+                        print(f"!! {v['name']}: {ed[1]} does not apply")
                         break
                     continue
                 f, old, new = ed[:3]
